@@ -1,7 +1,7 @@
 //! Contains content parser of AVRA-rs
 
 use std::{
-    cell::RefCell,
+    cell::{Cell, RefCell},
     collections::{BTreeSet, HashMap},
     env, fmt,
     fs::File,
@@ -137,10 +137,15 @@ pub struct ParseContext {
     pub messages: Rc<RefCell<Vec<String>>>,
     /// how many .include directives lead to the current file
     pub include_depth: usize,
+    /// how many files the build has included so far
+    pub included_files: Rc<Cell<usize>>,
 }
 
 /// Nesting limit of .include (a file that includes itself would never end)
 pub const MAX_INCLUDE_DEPTH: usize = 64;
+
+/// Files one build may include: files that each include the next one twice double the work with every level
+pub const MAX_INCLUDED_FILES: usize = 1 << 12;
 
 impl ParseContext {
     pub fn new(
@@ -161,6 +166,7 @@ impl ParseContext {
             }),
             messages: Rc::new(RefCell::new(vec![])),
             include_depth: 0,
+            included_files: Rc::new(Cell::new(0)),
         }
     }
 
@@ -234,6 +240,7 @@ pub fn parse_file_internal(context: &ParseContext) -> Result<(), Error> {
         macros,
         messages,
         include_depth,
+        included_files,
     } = context.clone();
     let include_paths = include_paths.borrow_mut();
 
@@ -288,6 +295,7 @@ pub fn parse_file_internal(context: &ParseContext) -> Result<(), Error> {
         macros,
         messages,
         include_depth,
+        included_files,
     };
 
     parse(source.as_str(), &context)?;
